@@ -2,33 +2,36 @@ package gen
 
 import (
 	"strconv"
+	"strings"
 
 	"pgregory.net/rapid"
 )
 
 // ProgCfg steers the program generator. Percentages are 0..100.
 type ProgCfg struct {
-	MaxTop     int      // max toplevel statements
-	MaxBody    int      // max statements per block body
-	MaxDepth   int      // max block nesting
-	ExprDepth  int      // max expression depth
-	Names      []string // variable / field name pool
-	Types      []string // block type pool
-	BNames     []string // block name literals (quoted), "" entry = no name
-	PWild      int      // percent of expressions generated without type direction
-	PIllegal   int      // percent of programs that get one statically illegal shape
-	PUnknown   int      // percent chance (per program) of one unknown-name read inside a block
-	PDivZero   int      // percent of programs with an injected division by zero
-	PDupChild  int      // percent chance that a child block may reuse a key of its parent
-	Binds      bool     // emit bind statements
-	PBadBind   int      // percent of programs with one illegal bind
-	PrintState bool     // print every visible name after blocks close and at the end
-	PEmbedAsg  int      // percent of compound expressions that may embed an assignment
-	PPar       int      // percent chance of redundant parentheses around a sub-expression
-	LongStr    bool     // allow strings longer than a few characters
-	PlainStr   bool     // strings restricted to letters/spaces/punctuation without digits and newlines
-	NoFloat    bool
-	PShort     int // percent of compound expressions that are and/or (0 = default 15)
+	MaxTop       int      // max toplevel statements
+	MaxBody      int      // max statements per block body
+	MaxDepth     int      // max block nesting
+	ExprDepth    int      // max expression depth
+	Names        []string // variable / field name pool
+	Types        []string // block type pool
+	BNames       []string // block name literals (quoted), "" entry = no name
+	PWild        int      // percent of expressions generated without type direction
+	PIllegal     int      // percent of programs that get one statically illegal shape
+	PUnknown     int      // percent chance (per program) of one unknown-name read inside a block
+	PDivZero     int      // percent of programs with an injected division by zero
+	PDupChild    int      // percent chance that a child block may reuse a key of its parent
+	Binds        bool     // emit bind statements
+	PBadBind     int      // percent of programs with one illegal bind
+	PrintState   bool     // print every visible name after blocks close and at the end
+	PEmbedAsg    int      // percent of compound expressions that may embed an assignment
+	PPar         int      // percent chance of redundant parentheses around a sub-expression
+	LongStr      bool     // allow strings longer than a few characters
+	PlainStr     bool     // strings restricted to letters/spaces/punctuation without digits and newlines
+	NoFloat      bool
+	PBadLit      int  // percent of int/float/string literals that are lexically fine but malformed or out of range
+	BindInBlocks bool // bind statements also inside block bodies (the implementation accepts them)
+	PShort       int  // percent of compound expressions that are and/or (0 = default 15)
 	// statement kind weights: var, assignment, print, def, bind (bind only
 	// at toplevel and with Binds); zero value = defaults
 	WVar, WAsg, WPrint, WDef, WBind int
@@ -165,6 +168,17 @@ func (g *PG) strLit() *Expr {
 }
 
 func (g *PG) literal(ty string) *Expr {
+	if g.C.PBadLit > 0 && Chance(g.T, g.C.PBadLit, "badlit") {
+		tk := Pick(g.T, "badlittok", HostileLiterals)
+		g.feat("malformed-literal")
+		switch {
+		case tk.K == KStr:
+			return &Expr{K: "str", T: tk.S}
+		case strings.ContainsAny(tk.S, ".eE") && !strings.HasPrefix(tk.S, "0x") && !strings.HasPrefix(tk.S, "0X"):
+			return &Expr{K: "float", T: tk.S}
+		}
+		return &Expr{K: "int", T: tk.S}
+	}
 	switch ty {
 	case "int":
 		s, _ := IntLit(g.T)
@@ -646,7 +660,7 @@ func (g *PG) body(depth int, n int) []*Stmt {
 		if depth >= g.C.MaxDepth {
 			wDef = 0
 		}
-		if !top || !g.C.Binds {
+		if !g.C.Binds || (!top && !g.C.BindInBlocks) {
 			wBind = 0
 		}
 		switch Weighted(g.T, "stmtkind", wVar, wAsg, wPrint, wDef, wBind) {
@@ -839,6 +853,17 @@ func ManyLocalsProg(n int, inBlock bool) *Prog {
 	for i := 0; i < n; i++ {
 		body = append(body, &Stmt{K: "var", Name: name(i), E: &Expr{K: "int", T: strconv.Itoa(i)}})
 	}
+	// read and assign around the operand-size boundary (slots 236..260) and at the top
+	seen := map[int]bool{}
+	for _, i := range []int{236, 239, 240, 241, 242, 247, 248, 249, 250, 255, 256, 257, 260, n - 3} {
+		if i >= 0 && i < n && !seen[i] {
+			seen[i] = true
+			body = append(body,
+				&Stmt{K: "print", E: &Expr{K: "id", T: name(i)}},
+				&Stmt{K: "eval", E: &Expr{K: "asg", T: name(i), A: &Expr{K: "bin", T: "+", A: &Expr{K: "id", T: name(i)}, B: &Expr{K: "int", T: "10000"}}}},
+				&Stmt{K: "print", E: &Expr{K: "id", T: name(i)}})
+		}
+	}
 	if n >= 2 {
 		body = append(body,
 			&Stmt{K: "print", E: &Expr{K: "bin", T: "+", A: &Expr{K: "id", T: name(n - 1)}, B: &Expr{K: "id", T: name(n - 2)}}},
@@ -846,8 +871,78 @@ func ManyLocalsProg(n int, inBlock bool) *Prog {
 			&Stmt{K: "print", E: &Expr{K: "or", A: &Expr{K: "id", T: name(n - 1)}, B: &Expr{K: "id", T: name(n / 2)}}},
 		)
 	}
+	// the scope ends right after an instruction whose last operand byte is an
+	// arbitrary small number (a slot), not after a POP or PRINT
+	if n > 28 {
+		body = append(body, &Stmt{K: "var", Name: "zlast", E: &Expr{K: "id", T: name(28 + (n%3)*240%n)}})
+	}
 	if inBlock {
 		return &Prog{Stmts: []*Stmt{{K: "def", Name: "t", Body: body}, {K: "print", E: &Expr{K: "int", T: "7"}}}}
 	}
 	return &Prog{Stmts: body}
+}
+
+// ManyConstsProg fills the constant pool with n distinct field names and
+// values before a block type is mentioned that is then bound, read and
+// nested, so that constant indices of GETFIELD/SETFIELD/DEFBLOCK/BIND/CONST
+// operands reach the 2-byte varint class (from 241 on).
+func ManyConstsProg(n int) *Prog {
+	var filler []*Stmt
+	for i := 0; i < n; i++ {
+		var v *Expr
+		switch i % 3 {
+		case 0:
+			v = &Expr{K: "int", T: strconv.Itoa(1000 + i)}
+		case 1:
+			v = &Expr{K: "str", T: QuotePlain("s" + strconv.Itoa(i))}
+		default:
+			v = &Expr{K: "float", T: strconv.Itoa(i) + ".5"}
+		}
+		filler = append(filler, &Stmt{K: "expr", E: &Expr{K: "asg", T: "f" + strconv.Itoa(i), A: v}})
+	}
+	lateRead := &Stmt{K: "print", E: &Expr{K: "bin", T: "+", A: &Expr{K: "id", T: "zlate"}, B: &Expr{K: "id", T: "f0"}}}
+	return &Prog{Stmts: []*Stmt{
+		{K: "def", Name: "filler", Body: append(filler,
+			&Stmt{K: "expr", E: &Expr{K: "asg", T: "zlate", A: &Expr{K: "int", T: "7"}}}, lateRead,
+			&Stmt{K: "def", Name: "zinner", HasBName: true, BNameLit: `"zn"`, Body: []*Stmt{
+				{K: "expr", E: &Expr{K: "asg", T: "zq", A: &Expr{K: "id", T: "zlate"}}}}})},
+		{K: "def", Name: "zcfg", HasBName: true, BNameLit: `"one"`, Body: []*Stmt{{K: "expr", E: &Expr{K: "asg", T: "zk", A: &Expr{K: "int", T: "1"}}}}},
+		{K: "def", Name: "zcfg", HasBName: true, BNameLit: `"two"`, Body: []*Stmt{{K: "expr", E: &Expr{K: "asg", T: "zk", A: &Expr{K: "int", T: "2"}}}}},
+		{K: "bind", Name: "zcfg", HasSel: true, Sel: Tok{KWord, "last"}, Target: "struct"},
+		{K: "print", E: &Expr{K: "str", T: QuotePlain("late constant")}},
+	}}
+}
+
+// DeepNestProg nests blocks n deep, each level with a field and a local.
+func DeepNestProg(n int) *Prog {
+	var inner []*Stmt
+	for i := n - 1; i >= 0; i-- {
+		body := []*Stmt{
+			{K: "var", Name: "v", E: &Expr{K: "int", T: strconv.Itoa(i)}},
+			{K: "expr", E: &Expr{K: "asg", T: "lvl", A: &Expr{K: "bin", T: "+", A: &Expr{K: "id", T: "v"}, B: &Expr{K: "int", T: "1"}}}},
+		}
+		body = append(body, inner...)
+		body = append(body, &Stmt{K: "print", E: &Expr{K: "id", T: "lvl"}})
+		inner = []*Stmt{{K: "def", Name: "n" + strconv.Itoa(i%3), Body: body}}
+	}
+	return &Prog{Stmts: inner}
+}
+
+// SpecialProg draws one of the big-program families that reach the
+// multi-byte operand classes and the nesting limits.
+func SpecialProg(t *rapid.T) (*Prog, string) {
+	switch Uniform(t, 4, "specialfamily") {
+	case 0:
+		n := Pick(t, "nlocals", []int{239, 240, 241, 242, 260, 600})
+		return ManyLocalsProg(n, Bool(t, "inblock")), "special:locals-" + strconv.Itoa(n)
+	case 1:
+		n := Pick(t, "nconsts", []int{230, 236, 237, 238, 239, 240, 250, 254, 300, 2300})
+		return ManyConstsProg(n), "special:constants-" + strconv.Itoa(n)
+	case 2:
+		n := Pick(t, "nest", []int{8, 15, 16})
+		return DeepNestProg(n), "special:nesting-" + strconv.Itoa(n)
+	default:
+		n := Pick(t, "chain", []int{50, 127, 128, 300, 1000, 1000, 16500, 30000})
+		return &Prog{Stmts: []*Stmt{{K: "print", E: JumpLimitExpr(Pick(t, "scop", []string{"and", "or"}), Uniform(t, 5, "prefix"), n)}}}, "special:long-operand-" + strconv.Itoa(n)
+	}
 }
